@@ -333,7 +333,7 @@ def _chains(fn: FuncInfo, expr: ast.AST, roots: set[str], depth: int = 0, seen: 
     return out
 
 
-def memo_key_rule(chk: Check, rule: str, fns: list[FuncInfo], suppress: dict[tuple[str, str], str] | None = None, doc: str = "") -> None:
+def memo_key_rule(chk: Check, rule: str, fns: list[FuncInfo], suppress: dict[tuple[str, str], str | tuple[str, str]] | None = None, doc: str = "") -> None:
     """For every explicit cache store `C[...][key] = value` / `cache.insert_x(key, value)` in `fns`: every parameter
     (attribute chain) the cached value is computed from must be part of the key."""
     chk.rule(rule, doc or "MEMO-KEY: whatever a cached value is computed from (parameters, configuration fields) is part of its cache key", floor=1)
@@ -346,7 +346,6 @@ def memo_key_rule(chk: Check, rule: str, fns: list[FuncInfo], suppress: dict[tup
         while p is not None:
             roots |= set(params_of(p.node))
             p = p.parent
-        roots.discard("self")
         stores: list[tuple[ast.AST, list[ast.expr], ast.expr]] = []  # (site, key exprs, value expr)
         for s in walk_body(fn.node):
             if isinstance(s, ast.Assign) and len(s.targets) == 1 and isinstance(s.targets[0], ast.Subscript):
@@ -385,6 +384,15 @@ def memo_key_rule(chk: Check, rule: str, fns: list[FuncInfo], suppress: dict[tup
                 key_chains |= _chains(fn, k, roots)
             deps = _chains(fn, value, roots)
             missing = sorted(d for d in deps if not any(d == k or d.startswith(k + ".") or k.startswith(d + ".") and False for k in key_chains))
+            # instance state (`self.x`): covered when the cache itself lives directly on the instance (`self._cache`);
+            # a cache reached through another object (`self._parent._schema._operation_cache`) is shared between
+            # instances, so the instance fields the value is built from must be in the key like any parameter
+            if any(k.startswith("self.") and k.count(".") == 1 for k in key_chains):
+                missing = [d for d in missing if not (d == "self" or d.startswith("self."))]
+            missing = [d for d in missing if d != "self"]
+            # the object that owns the cache (`<owner>._operation_cache`) is part of the key by construction
+            owners = {k.rsplit(".", 1)[0] for k in key_chains if "." in k and "cache" in k.rsplit(".", 1)[1].lower()}
+            missing = [d for d in missing if not any(d == o or d.startswith(o + ".") for o in owners)]
             # a whole-object dependency (`generation_config` passed on) is covered by any key derived from that object
             missing = [d for d in missing if not any(k.split(".")[0] == d for k in key_chains if "." not in d)]
             # key: the cache being written (module-level name / attribute), not the incidental local names
@@ -399,6 +407,8 @@ def memo_key_rule(chk: Check, rule: str, fns: list[FuncInfo], suppress: dict[tup
             real = []
             for d in missing:
                 why = suppress.get((fn.name, d.split(".")[0])) or suppress.get((fn.name, d))
+                if isinstance(why, tuple):  # (reason, key chain that must be part of the key for the reason to hold)
+                    why = why[0] if why[1] in key_chains else None
                 if why:
                     chk.ok(rule, fn, f"{construct}: `{d}` not in key", f"named suppression: {why}", fn.loc(site))
                 else:
